@@ -1,6 +1,6 @@
 SPECIFICATION Spec
 CONSTANTS
-  DtNames = {"int", "NE"}
+  DtNames = {"NE", "DN"}
   Edits = 1
   MaxTail = 2
   Wide = FALSE
